@@ -498,7 +498,8 @@ class StateManager:
             logw, _ = self.compute_logw_and_logz(1.0)
             self._results_dict["logw"] = logw
 
-        return self._results_dict
+        # Hand out a copy: the cache itself must never be reachable by the caller.
+        return {k: self._ensure_copy(v) for k, v in self._results_dict.items()}
 
     def to_dict(self) -> dict:
         """
@@ -523,8 +524,11 @@ class StateManager:
         0.5
         """
         return {
-            "_current": self._current.copy(),
-            "_history": {k: list(v) for k, v in self._history.items()},
+            "_current": {k: self._ensure_copy(v) for k, v in self._current.items()},
+            "_history": {
+                k: [self._ensure_copy(v) for v in hist]
+                for k, hist in self._history.items()
+            },
             "n_dim": self.n_dim,
         }
 
@@ -553,10 +557,7 @@ class StateManager:
         n_dim = state_dict.get("n_dim", 1)
         instance = cls(n_dim)
 
-        if "_current" in state_dict:
-            instance._current.update(state_dict["_current"])
-        if "_history" in state_dict:
-            instance._history.update(state_dict["_history"])
+        instance._import_dicts(state_dict)
 
         instance._invalidate_cache()
         return instance
@@ -583,10 +584,7 @@ class StateManager:
         >>> state.get_current("beta")
         0.5
         """
-        if "_current" in state_dict:
-            self._current.update(state_dict["_current"])
-        if "_history" in state_dict:
-            self._history.update(state_dict["_history"])
+        self._import_dicts(state_dict)
         if "n_dim" in state_dict:
             self.n_dim = state_dict["n_dim"]
 
@@ -648,6 +646,24 @@ class StateManager:
             state_dict = dill.load(file=f)
 
         self.update_from_dict(state_dict)
+
+    def _import_dicts(self, state_dict: dict):
+        """Copy ``_current`` / ``_history`` entries of ``state_dict`` into this instance.
+
+        The caller keeps ownership of its dictionaries, lists and arrays: new
+        lists holding copies of the arrays are stored.
+        """
+        if "_current" in state_dict:
+            self._current.update(
+                {k: self._ensure_copy(v) for k, v in state_dict["_current"].items()}
+            )
+        if "_history" in state_dict:
+            self._history.update(
+                {
+                    k: [self._ensure_copy(v) for v in hist]
+                    for k, hist in state_dict["_history"].items()
+                }
+            )
 
     def _validate_current_key(self, key: str):
         """Validate key is a valid current state key."""
